@@ -256,6 +256,10 @@ def rule_dimensions(ctx):
 
 
 def run(ctx):
+    from . import protocol
+    protocol.rule_active_bound(ctx, 'R02.12')            # index < N_active decides 'active' at every site
+    protocol.rule_root_loops(ctx, 'R02.13')              # tree forces visit every root box
+    protocol.rule_jerk_loop_starts(ctx, 'R01.15')
     from . import c15
     c15.rule_tree_geometry(ctx)     # R15.3/R15.4: particles are filed in the root box that contains them (or they exert no force)
     from . import c14 as _c14
